@@ -1,0 +1,31 @@
+//go:build verif
+
+// Contracts for the generated bindings of this package (property C05), derived mechanically by
+// /verif/tools/gencontracts.py from the generated source; checked by /verif/govc. Comments only.
+
+package logf
+
+//@ func (*LogInfo).ResetDefault
+//@   requires st != nil
+//@   modifies *st
+//@   safety [C05]
+//
+//@ func (*LogInfo).ReadFrom
+//@   requires st != nil && validR(readBuf)
+//@   let p0 = readBuf.buf.i
+//@   let allocbudget = 256 * len(readBuf.buf.src)
+//@   modifies *st, readBuf.buf.i, readBuf.depth
+//@   allocates
+//@   ensures [C05] readBuf.buf.i >= p0
+//@   ensures [C05] validR(readBuf)
+//@   safety [C05]
+//
+//@ func (*LogInfo).ReadBlock
+//@   requires st != nil && validR(readBuf)
+//@   let p0 = readBuf.buf.i
+//@   let allocbudget = 256 * len(readBuf.buf.src)
+//@   modifies *st, readBuf.buf.i, readBuf.depth
+//@   allocates
+//@   ensures [C05] readBuf.buf.i >= p0
+//@   ensures [C05] validR(readBuf)
+//@   safety [C05]
